@@ -57,6 +57,7 @@ def build_harness(pid, race=False):
         open(modf, "w").write(open(os.path.join(hm, "go.mod")).read().replace("=> /repo\n", "=> %s\n" % alt))
         shutil.copy(os.path.join(hm, "go.sum"), modf[:-4] + ".sum")
         extra = ["-modfile=" + modf]
+        env["GOCACHE"] = "/tmp/verif-altcache"   # every other checkout path fills its own build cache entries (80 GB once): kept apart, removed by the seed scripts
         log("building against %s instead of /repo" % alt)
     cmd = ["go", "build", "-tags", "verif"] + extra + (["-race"] if race else []) + ["-o", out, "./cmd/vh"]
     p = subprocess.run(cmd, cwd=os.path.join(VERIF, "harness"), env=env, stdout=subprocess.PIPE, stderr=subprocess.STDOUT, text=True)
